@@ -19,6 +19,7 @@ import Kap.Proofs.C12PairL
 import Kap.Proofs.C12On
 import Kap.Proofs.C12BatchD
 import Kap.Proofs.C12OnFwd
+import Kap.Proofs.C12OnInvE
 namespace Kap.Props.C12
 open Kap.C12 Kap.C12.Spec
 
@@ -346,7 +347,7 @@ proved) — for every arrival order: when the forwarded points come from parents
 (specific) group, every parent's forwarded rounded times never go back — two decidable conditions on the
 computable list `JOn.forwarded` — the joined points of the whole run are, up to permutation, the
 specification's plain-join output over the forwarded points: per group and rounded time one point per
-occurrence index. What is missing for the full clause is `on_forwarded_is_pairing_stmt`. -/
+occurrence index. The two conditions are proved on the claimed domain by `on_forwarded_is_pairing`. -/
 theorem on_pairs_specific_with_general_partial (cfg : JCfg) (arrivals : List (Nat × JMsg × Bool × String))
     (hn : cfg.names.length = cfg.parents)
     (hs : ∀ p ∈ JOn.forwarded cfg arrivals, p.1 < cfg.parents)
@@ -364,35 +365,60 @@ theorem on_pairs_specific_with_general_partial (cfg : JCfg) (arrivals : List (Na
   rw [pointsOf_feedOps] at h
   exact h
 
-/-- Full-strength statement of the `on()` pairing clause (stated, NOT proved; evaluated on every run by the spec
-oracle on the implementation's output, the same per-parent sequences replayed in three interleavings, and
-tied by correspondence): on the claimed domain (`Spec.onDomain`: two parents, at most one of them specific, one
-general group per group, at most one general point per general group and rounded time, per parent and general
-group the rounded times never go back) the joined points of the whole run are, up to permutation,
-`Spec.joinOnOutput`: every specific point joined with the general point of its general group and rounded time
-(if there is one), whatever the interleaving. -/
-def on_pairs_specific_with_general_stmt : Prop :=
-  ∀ (cfg : JCfg) (arr : List OnArrival), cfg.names.length = cfg.parents → onDomain cfg arr →
-    (((JOn.run cfg (arr.map (fun a => (a.src, a.msg, a.specific, a.general)))).2.1).filterMap (joinIntoPoint cfg)).Perm
-      (joinOnOutput cfg arr)
-
-/-- What remains to be proved for it (stated, NOT proved), entirely about the computable list `JOn.forwarded`: on the
-claimed domain the forwarded points come from parents in range, are in rounded-time order per group and
-parent, and their plain-join pairing is the `on()` pairing (every specific point forwarded exactly once, with
-the re-tagged general point of its general group and time exactly when there is one). -/
-def on_forwarded_is_pairing_stmt : Prop :=
-  ∀ (cfg : JCfg) (arr : List OnArrival), cfg.names.length = cfg.parents → onDomain cfg arr →
+/-- **on_forwarded_is_pairing** — what `matchPoints` hands to the join groups on the claimed domain
+(`Spec.onDomain`: two parents, every arrival from one of them, each parent consistently specific or general and at
+most one of them specific, one general group per group, at most one general point per general group and rounded
+time, per parent and general group the rounded times never go back), for EVERY arrival order in that domain: the
+forwarded points come from parents in range, are in rounded-time order per group and parent, and their plain-join
+pairing is the `on()` pairing. Proof (Kap/Proofs/C12OnInv*.lean): an invariant of `matchPoints` relative to the arrival
+history `hist` (`OnP.Inv`) —
+  * `lowMarks[(parent, general group)]` is the rounded time of an arrival of that parent and group and bounds all of
+    them; `allReported` holds as soon as both parents were seen; hence the low mark of a step is zero exactly when
+    the other parent has sent nothing for the group, else min(own time, the other parent's latest time)
+    (`OnP.lowMark_cases`);
+  * `matchGroupsBuffer[g]` holds general arrivals of g, per parent in strictly increasing time order, and a general
+    arrival no longer there is older than some specific arrival of g (so the search loop with its `break` finds
+    exactly the match point of the time: `OnP.searchMatches_spec`);
+  * `specificGroupsBuffer[g]`: forwarded ++ cached = the specific arrivals of g IN ARRIVAL ORDER (every specific
+    point is forwarded or cached exactly once, first in first out), and no cached point has a general partner in
+    the history;
+  * everything forwarded so far is a list of BLOCKS: a specific arrival followed by its re-tagged partner exactly
+    when `Spec.joinOnOutput` pairs it with one (options 1-3 of `matchPoints`: `OnP.step_spec`; a match point:
+    `OnP.step_gen`; option 3 can never fire since the low mark includes the point's own parent).
+At Finish the cached points have no partner anywhere. The plain-join pairing of a list of blocks of a permutation of
+the specific arrivals is the `on()` pairing (`OnP.joinOutput_blocks`, specification side only). -/
+theorem on_forwarded_is_pairing (cfg : JCfg) (arr : List OnArrival) (hd : onDomain cfg arr) :
     let fw := JOn.forwarded cfg (arr.map (fun a => (a.src, a.msg, a.specific, a.general)))
     (∀ p ∈ fw, p.1 < cfg.parents) ∧ joinOrdered cfg (fw.map (fun p => (p.1, p.2.grp, p.2.time))) ∧
-    (joinOutput cfg fw).Perm (joinOnOutput cfg arr)
+    (joinOutput cfg fw).Perm (joinOnOutput cfg arr) :=
+  OnP.forwarded_is_pairing cfg arr hd
 
-/-- The reduction is exact: the remaining statement implies the full clause. -/
-theorem on_pairs_of_forwarded_pairing (h : on_forwarded_is_pairing_stmt) : on_pairs_specific_with_general_stmt := by
-  intro cfg arr hn hd
-  obtain ⟨h1, h2, h3⟩ := h cfg arr hn hd
+/-- **on_pairs_specific_with_general** — the `on()` pairing clause, for EVERY arrival order in the claimed domain
+(`Spec.onDomain`, see above; corrected by `on_both_parents_specific_join_each_other` and
+`on_group_with_two_general_groups_mispairs` below): the joined points of the whole run (arrivals, then Finish) are,
+up to permutation, `Spec.joinOnOutput`: every specific point joined with the general point of its general group and
+rounded time (re-tagged with the specific point's group) if there is one, alone (outer join: filled) otherwise;
+general points alone yield nothing. Whatever the interleaving of the two parents. By `on_run_is_join_of_forwarded`,
+`join_pairs_by_occurrence` on the forwarded list, and `on_forwarded_is_pairing`. -/
+theorem on_pairs_specific_with_general (cfg : JCfg) (arr : List OnArrival) (hn : cfg.names.length = cfg.parents)
+    (hd : onDomain cfg arr) :
+    (((JOn.run cfg (arr.map (fun a => (a.src, a.msg, a.specific, a.general)))).2.1).filterMap (joinIntoPoint cfg)).Perm
+      (joinOnOutput cfg arr) := by
+  obtain ⟨h1, h2, h3⟩ := on_forwarded_is_pairing cfg arr hd
   exact (on_pairs_specific_with_general_partial cfg _ hn h1 h2).trans h3
 
-/-- Non-vacuity of the partial theorem and of the remaining statement: an instance (general parent lagging, one
+/-- **on(): the multiset of outputs is the same for every interleaving** — two arrival orders that are permutations
+of each other (in particular two interleavings of the same per-parent sequences), both in the claimed domain, give
+the same joined points up to permutation: on the domain the partner of a specific point is unique, so
+`Spec.joinOnOutput` is a function of the multiset of arrivals (`OnP.joinOnOutput_perm`). -/
+theorem on_multiset_interleaving_independent (cfg : JCfg) (a₁ a₂ : List OnArrival) (hn : cfg.names.length = cfg.parents)
+    (h₁ : onDomain cfg a₁) (h₂ : onDomain cfg a₂) (hp : a₁.Perm a₂) :
+    (((JOn.run cfg (a₁.map (fun a => (a.src, a.msg, a.specific, a.general)))).2.1).filterMap (joinIntoPoint cfg)).Perm
+      (((JOn.run cfg (a₂.map (fun a => (a.src, a.msg, a.specific, a.general)))).2.1).filterMap (joinIntoPoint cfg)) :=
+  ((on_pairs_specific_with_general cfg a₁ hn h₁).trans (OnP.joinOnOutput_perm cfg a₁ a₂ h₂ hp)).trans
+    (on_pairs_specific_with_general cfg a₂ hn h₂).symm
+
+/-- Non-vacuity of the partial theorem and of `on_forwarded_is_pairing`: an instance (general parent lagging, one
 specific point without partner, a purged point) on which the hypotheses hold and the forwarded list pairs as
 `joinOnOutput` says. -/
 example : let cfg : JCfg := { parents := 2, tol := 0, fill := .num "i:0", names := ["s", "g"], delim := ".", sname := "" }
@@ -431,6 +457,48 @@ theorem on_group_with_two_general_groups_mispairs :
       [[("s.v", "i:7"), ("g.v", "i:9")], [("s.v", "i:1"), ("g.v", "i:3")], [("s.v", "i:2"), ("g.v", "i:0")]] ∧
     (joinOnOutput cfg arr).map (·.fields) =
       [[("s.v", "i:1"), ("g.v", "i:0")], [("s.v", "i:7"), ("g.v", "i:9")], [("s.v", "i:2"), ("g.v", "i:3")]] := by decide
+
+/-- The clause needs "per parent and general group the rounded times never go back" (the last conjunct of the domain;
+all others hold in both instances): a specific parent that goes back in time has its late point purged alone although
+its general partner comes afterwards; a general parent that goes back in time delivers a partner that is not found
+because the low mark has already passed it. -/
+theorem on_unordered_parent_mispairs :
+    let cfg : JCfg := { parents := 2, tol := 0, fill := .num "i:0", names := ["s", "g"], delim := ".", sname := "" }
+    let sm (t : Int) (v : String) : JMsg := { time := t, name := "m0", grp := "h=x,c=1", byName := false, dims := ["h", "c"], tags := [("h", "x"), ("c", "1")], fields := [("v", v)] }
+    let gm (t : Int) (v : String) : JMsg := { time := t, name := "m1", grp := "h=x", byName := false, dims := ["h"], tags := [("h", "x")], fields := [("v", v)] }
+    let sp (t : Int) (v : String) : OnArrival := ⟨0, sm t v, true, "h=x"⟩
+    let ge (t : Int) (v : String) : OnArrival := ⟨1, gm t v, false, "h=x"⟩
+    let out (arr : List OnArrival) := (((JOn.run cfg (arr.map (fun a => (a.src, a.msg, a.specific, a.general)))).2.1).filterMap (joinIntoPoint cfg)).map (·.fields)
+    let a₁ := [sp 12 "i:1", sp 10 "i:2", ge 10 "i:4", ge 12 "i:5"]
+    let a₂ := [sp 10 "i:1", ge 12 "i:4", sp 12 "i:2", ge 10 "i:5"]
+    (¬ onDomain cfg a₁ ∧ out a₁ = [[("s.v", "i:1"), ("g.v", "i:5")], [("s.v", "i:2"), ("g.v", "i:0")]] ∧
+      (joinOnOutput cfg a₁).map (·.fields) = [[("s.v", "i:1"), ("g.v", "i:5")], [("s.v", "i:2"), ("g.v", "i:4")]]) ∧
+    (¬ onDomain cfg a₂ ∧ out a₂ = [[("s.v", "i:1"), ("g.v", "i:0")], [("s.v", "i:2"), ("g.v", "i:4")]] ∧
+      (joinOnOutput cfg a₂).map (·.fields) = [[("s.v", "i:1"), ("g.v", "i:5")], [("s.v", "i:2"), ("g.v", "i:4")]]) := by decide
+
+/-- The clause needs "each parent consistently specific or general": a general point from the specific point's own
+parent makes `allReported`/the low mark believe the general side has reported; the specific point is cached, never
+meets the real partner's time again and is flushed alone, and the parent's own general point is (by the model's
+`specific` flag) treated as a match point of nobody. -/
+theorem on_parent_of_both_kinds_mispairs :
+    let cfg : JCfg := { parents := 2, tol := 0, fill := .num "i:0", names := ["s", "g"], delim := ".", sname := "" }
+    let sm (t : Int) (v : String) : JMsg := { time := t, name := "m0", grp := "h=x,c=1", byName := false, dims := ["h", "c"], tags := [("h", "x"), ("c", "1")], fields := [("v", v)] }
+    let gm (t : Int) (v : String) : JMsg := { time := t, name := "m1", grp := "h=x", byName := false, dims := ["h"], tags := [("h", "x")], fields := [("v", v)] }
+    let arr : List OnArrival := [⟨0, sm 10 "i:1", true, "h=x"⟩, ⟨0, gm 10 "i:4", false, "h=x"⟩, ⟨1, gm 10 "i:5", false, "h=x"⟩]
+    ¬ onDomain cfg arr ∧
+    ((((JOn.run cfg (arr.map (fun a => (a.src, a.msg, a.specific, a.general)))).2.1).filterMap (joinIntoPoint cfg)).map (·.fields)) ≠
+      (joinOnOutput cfg arr).map (·.fields) := by decide
+
+/-- Non-vacuity of `on_multiset_interleaving_independent`: two interleavings of the same per-parent sequences, both in
+the domain, permutations of each other, with a matched, a purged and a flushed specific point. -/
+example : let cfg : JCfg := { parents := 2, tol := 0, fill := .num "i:0", names := ["s", "g"], delim := ".", sname := "" }
+    let sm (t : Int) (c v : String) : JMsg := { time := t, name := "m0", grp := "h=x,c=" ++ c, byName := false, dims := ["h", "c"], tags := [("h", "x"), ("c", c)], fields := [("v", v)] }
+    let gm (t : Int) (v : String) : JMsg := { time := t, name := "m1", grp := "h=x", byName := false, dims := ["h"], tags := [("h", "x")], fields := [("v", v)] }
+    let sp (t : Int) (c v : String) : OnArrival := ⟨0, sm t c v, true, "h=x"⟩
+    let ge (t : Int) (v : String) : OnArrival := ⟨1, gm t v, false, "h=x"⟩
+    let a₁ := [sp 10 "1" "i:1", sp 11 "2" "i:2", sp 14 "1" "i:3", ge 10 "i:4", ge 13 "i:5"]
+    let a₂ := [ge 10 "i:4", sp 10 "1" "i:1", ge 13 "i:5", sp 11 "2" "i:2", sp 14 "1" "i:3"]
+    onDomain cfg a₁ ∧ onDomain cfg a₂ ∧ a₁.Perm a₂ ∧ (joinOnOutput cfg a₁).length = 3 := by decide
 
 /-- Non-vacuity of the statement: an instance (general parent lagging, one specific point without partner). -/
 example : let cfg : JCfg := { parents := 2, tol := 0, fill := .num "i:0", names := ["s", "g"], delim := ".", sname := "" }
